@@ -39,15 +39,33 @@ impl FeatureVariationsProvider {
             let mut region = Region::default();
             for conditions in &rule.conditions {
                 let mut space = NBox::default();
+                let mut reachable = true;
                 for condition in conditions {
-                    let axis = static_metadata
-                        .axis(&condition.axis)
-                        .expect("checked already");
+                    let Some(axis) = static_metadata.axis(&condition.axis) else {
+                        // An axis that doesn't vary isn't in fvar: the font sits at its one
+                        // position, so the condition either always holds or never does.
+                        let axis = static_metadata
+                            .all_source_axes
+                            .get(&condition.axis)
+                            .expect("checked already");
+                        let position = axis.default.to_design(&axis.converter);
+                        if condition.min.is_some_and(|min| position < min)
+                            || condition.max.is_some_and(|max| position > max)
+                        {
+                            reachable = false;
+                        }
+                        continue;
+                    };
                     let min = condition.min.map(|min| min.to_normalized(&axis.converter));
                     let max = condition.max.map(|max| max.to_normalized(&axis.converter));
                     space.insert(condition.axis, min, max);
                 }
-                region.push(std::mem::take(&mut space));
+                if reachable {
+                    region.push(std::mem::take(&mut space));
+                }
+            }
+            if region.is_empty() && !rule.conditions.is_empty() {
+                continue; // none of its condition sets can ever hold
             }
             let substitutions = rule
                 .substitutions
